@@ -56,27 +56,27 @@ RootSpec<D> decode_root(Input const& in, Ctx& ctx, int hoff = 0) {
 }
 
 // run `body(root_lvalue, model, raw pointer to element 0, N)` on a freshly built root of the decoded kind
-template<class Cfg, class T, int D, class Body>
+template<class Cfg, class T, int D, bool MutableOnly = false, class Body>
 void with_root(RootSpec<D> const& r, Body&& body) {
 	using Alloc = typename Cfg::template alloc<T>;
 	auto x = r.extensions();
 	Model m = r.model();
-	auto fill = [&](auto& A) { auto* p = raw_ptr(A.data_elements()); for(long i = 0; i < r.N; ++i) { p[i] = static_cast<T>(i); } };
+	auto fill = [&](auto& A) { if constexpr(std::is_constructible_v<T, long>) { auto* p = raw_ptr(A.data_elements()); for(long i = 0; i < r.N; ++i) { p[i] = static_cast<T>(i); } } else { (void)A; } };
 	switch(r.kind) {
 		case RK_ARRAY: { multi::array<T, D, Alloc> A(x); fill(A); body(A, m, raw_ptr(A.data_elements()), r.N); return; }
-		case RK_ARRAY_CONST: { multi::array<T, D, Alloc> A(x); fill(A); body(std::as_const(A), m, raw_ptr(A.data_elements()), r.N); return; }
+		case RK_ARRAY_CONST: if constexpr(!MutableOnly) { multi::array<T, D, Alloc> A(x); fill(A); body(std::as_const(A), m, raw_ptr(A.data_elements()), r.N); return; } [[fallthrough]];
 		case RK_STATIC: { multi::static_array<T, D, Alloc> A(x); fill(A); body(A, m, raw_ptr(A.data_elements()), r.N); return; }
-		case RK_STATIC_CONST: { multi::static_array<T, D, Alloc> A(x); fill(A); body(std::as_const(A), m, raw_ptr(A.data_elements()), r.N); return; }
+		case RK_STATIC_CONST: if constexpr(!MutableOnly) { multi::static_array<T, D, Alloc> A(x); fill(A); body(std::as_const(A), m, raw_ptr(A.data_elements()), r.N); return; } [[fallthrough]];
 		default: {
 			constexpr long G = 16;
-			std::vector<T> buf(static_cast<std::size_t>(r.N + 2*G), static_cast<T>(-77));
+			std::vector<T> buf(static_cast<std::size_t>(r.N + 2*G));
 			T* p = buf.data() + G;
-			for(long i = 0; i < r.N; ++i) { p[i] = static_cast<T>(i); }
+			if constexpr(std::is_constructible_v<T, long>) { for(long i = 0; i < r.N; ++i) { p[i] = static_cast<T>(i); } }
 			ASAN_POISON_MEMORY_REGION(buf.data(), G*sizeof(T));
 			ASAN_POISON_MEMORY_REGION(p + r.N, G*sizeof(T));
 			struct Unpoison { std::vector<T>& b; ~Unpoison() { ASAN_UNPOISON_MEMORY_REGION(b.data(), b.size()*sizeof(T)); } } unp{buf};
 			multi::array_ref<T, D> R(x, p);
-			if(r.kind == RK_REF) { body(R, m, p, r.N); } else { body(std::as_const(R), m, p, r.N); }
+			if constexpr(MutableOnly) { body(R, m, p, r.N); } else { if(r.kind == RK_REF) { body(R, m, p, r.N); } else { body(std::as_const(R), m, p, r.N); } }
 			return;
 		}
 	}
